@@ -258,6 +258,6 @@ def _replay_once(case, cross_model_first):
 
 
 def replay(pid, case):
-    # the violating read alone (with the recent inputs that preceded it) - and, if that shows nothing, once more after
-    # the other two sensor models have read the same voltage (state shared between driver classes lives that long)
-    return _replay_once(case, False) or _replay_once(case, True)
+    # first with the other two sensor models reading the same voltage beforehand (state shared between the driver
+    # classes lives longer than the recorded history window), then the recorded history alone
+    return _replay_once(case, True) or _replay_once(case, False)
